@@ -38,7 +38,7 @@ func checkC19(e *Engine, r *Report) {
 	r.Rules = []string{
 		"R6 operator tables: the Operator constants = the operators Validate accepts = the operators Evaluate distinguishes",
 		"R6+S6 validated implies safe: for every operator under which Evaluate indexes Values[k], Validate rejects expressions with too few values; every Evaluate call site is in the reviewed table of sources that are validated (configuration, annotations) or built with the right arity",
-		"negation duality: for (In,NotIn), (Matches,MatchesNot), (MatchesAny,MatchesNone), (Exists,NotExist) the result under the negative operator is syntactically `!` of the value computed under the positive one",
+		"negation duality: for (In,NotIn), (Matches,MatchesNot), (MatchesAny,MatchesNone), (Exists,NotExist) the result under the negative operator is `!` of the value computed under the positive one (shared computation), or — for loop-free computations — the two results are pointwise negations over all valuations of the tests they perform (truth table over canonicalised atoms)",
 		"R1+R2 weight clamp: Affinity.Validate clamps the weight to ±UserWeightCutoff (1000) on every success path; parseFull validates after applying the anti-affinity sign and appends only validated affinities",
 		"selection order (balloons): effective annotation first (unknown name is an error), then the balloon types in configured slice order with match expressions before namespaces, then the default type; the implicit reserved type is prepended and matches kube-system plus ReservedPoolNamespaces",
 	}
@@ -405,22 +405,37 @@ func checkC19(e *Engine, r *Report) {
 				r.Undecided(key, "negation duality", "operators exist", e.Pos(evaluate.Pos()), evaluate, "constants not found")
 				continue
 			}
+			// (a) structural form: one shared computation X, the negative operator returns !X
+			okDual, w := false, ""
 			ln := leavesUnder(opAssume(fOp, N), nil)
-			if len(ln) != 1 {
-				r.Undecided(key, "negation duality", pr[1]+" is the exact negation of "+pr[0], e.Pos(evaluate.Pos()), evaluate, fmt.Sprintf("result under %s has %d sources (unrecognised idiom)", pr[1], len(ln)))
-				continue
+			if len(ln) == 1 {
+				if not, ok := ln[0].(*ssa.UnOp); ok && not.Op == token.NOT {
+					lp := leavesUnder(opAssume(fOp, P), not.X)
+					okDual = len(lp) == 1 && lp[0] == not.X
+					if !okDual {
+						w = fmt.Sprintf("the result under %s is !X but the result under %s is not X", pr[1], pr[0])
+					}
+				} else {
+					w = "the result under " + pr[1] + " is not of the form !X"
+				}
+			} else {
+				w = fmt.Sprintf("result under %s has %d sources", pr[1], len(ln))
 			}
-			not, ok := ln[0].(*ssa.UnOp)
-			if !ok || not.Op != token.NOT {
-				r.Check(key, "negation duality", pr[1]+" is the exact negation of "+pr[0], e.Pos(evaluate.Pos()), evaluate, false, "the result under "+pr[1]+" is not of the form !X", true)
-				continue
-			}
-			lp := leavesUnder(opAssume(fOp, P), not.X)
-			okDual := len(lp) == 1 && lp[0] == not.X
-			// when X is itself computed in a clause shared by both operators nothing in it may depend on the operator
-			w := ""
+			// (b) semantic form for loop-free computations: the two results are pointwise negations over all valuations of their tests
 			if !okDual {
-				w = fmt.Sprintf("the result under %s is !X but the result under %s is not X", pr[1], pr[0])
+				fP, errP := boolFormulaOf(e, evaluate, 0, opAssume(fOp, P))
+				fN, errN := boolFormulaOf(e, evaluate, 0, opAssume(fOp, N))
+				if errP == nil && errN == nil {
+					var w2 string
+					okDual, w2 = negationOf(fP, fN)
+					if !okDual {
+						w = w2
+					} else {
+						w = ""
+					}
+				} else {
+					w += fmt.Sprintf("; not comparable as boolean formulas (%v / %v)", errP, errN)
+				}
 			}
 			r.Check(key, "negation duality", pr[1]+" evaluates to the logical negation of what "+pr[0]+" evaluates to", e.Pos(evaluate.Pos()), evaluate, okDual, w, true)
 		}
